@@ -1,6 +1,6 @@
 # Shared machinery for /verif checks: build, TLC runs, dot-graph parsing, graph tables,
 # evidence files, known-findings policy.  stdlib only.
-import json, os, re, shutil, subprocess, sys, time, hashlib, threading
+import atexit, json, os, re, shutil, subprocess, sys, time, hashlib, threading
 from concurrent.futures import ThreadPoolExecutor
 
 VERIF = os.path.dirname(os.path.dirname(os.path.abspath(__file__)))
@@ -82,9 +82,10 @@ SAN = {
 def build(name, groups, harness_srcs, san="asan", extra_cflags=(), extra_ldflags=(), per_file_flags=None,
           opt="-O1"):
     """Compile library groups from REPO + harness sources into BUILD/name/name. Returns exe path."""
-    out = os.path.join(BUILD, name)
+    out = os.path.join(BUILD, "%s.%d" % (name, os.getpid()))      # per process: concurrent checks never share build products
     shutil.rmtree(out, ignore_errors=True)
     os.makedirs(out)
+    atexit.register(lambda d=out: shutil.rmtree(d, ignore_errors=True) if not os.environ.get("VP_KEEP") else None)
     inc = []
     for i in LIB_INC:
         inc += ["-I", os.path.join(REPO, i)]
